@@ -46,9 +46,17 @@ type World struct {
 	GhostFuncs map[string]*GhostFunc
 	specPkg    map[*SpecFile]*types.Package
 
-	RepoDir string
-	Warn    []string
-	Guards  map[string]*guardInfo // "<struct name>.<field index>" -> guard
+	RepoDir       string
+	Warn          []string
+	Guards        map[string]*guardInfo // "<struct name>.<field index>" -> guard
+	PointeeGuards map[string]*pointeeGuard
+}
+
+type pointeeGuard struct {
+	Owner      types.Type
+	MutexField int
+	Tags       []string
+	Name       string
 }
 
 type guardInfo struct {
@@ -706,8 +714,30 @@ func (w *World) LoadSpecs(extDir string) error {
 		}
 	}
 	w.Guards = map[string]*guardInfo{}
+	w.PointeeGuards = map[string]*pointeeGuard{}
 	for _, sf := range w.Specs {
 		for _, g := range sf.Guards {
+			if g.Pointee != nil {
+				pt, err := w.ResolveType(sf, g.Pointee)
+				if err != nil {
+					return fmt.Errorf("%s: %v", g.Pos, err)
+				}
+				ot, err := w.ResolveType(sf, g.Owner)
+				if err != nil {
+					return fmt.Errorf("%s: %v", g.Pos, err)
+				}
+				mi := -1
+				for i, f := range w.StructFields(ot) {
+					if f.Name == g.Mutex {
+						mi = i
+					}
+				}
+				if mi < 0 {
+					return fmt.Errorf("%s: guarded pointee: unknown mutex field", g.Pos)
+				}
+				w.PointeeGuards[w.heapKey(pt)] = &pointeeGuard{Owner: ot, MutexField: mi, Tags: g.Tags, Name: g.Pointee.String()}
+				continue
+			}
 			ot, err := w.ResolveType(sf, g.Owner)
 			if err != nil {
 				return fmt.Errorf("%s: %v", g.Pos, err)
